@@ -114,7 +114,7 @@ ASSUMPTIONS = [
     "iterate, masks with 2 pixels: a per-pixel obligation is first decided under the sub-set of the path condition that shares user-function values "
     "with it (cone of influence; dropping hypotheses is sound for 'holds'), and under the full path condition only if that is not unsat",
     "every sampler / decorator body is a three-step history in one process: A (origin, scales), B (same bits, scales, sub-sizes, another symbolic origin), "
-    "C (B's origin, other scales); all clauses are checked for A, B and C.  Iterate bodies are preceded by uniform over-samplings of the same mask at a "
+    "C (B's origin, other scales); all clauses are checked for A, B and C; in B and C a per-pixel sub-size map is an Array2D stored on a mask with A's geometry.  Iterate bodies are preceded by uniform over-samplings of the same mask at a "
     "shifted origin for every level of the schedule",
     "one body execution = one fresh interpreter: module-level mutable state (dicts, lists, sets, lru caches) of autoarray.operators.over_sampling.*, "
     "structures.grids.uniform_2d, structures.decorators, dataset.grids, mask.mask_2d is restored to its import-time content before each body",
@@ -355,6 +355,16 @@ def case_kernels(ctx, H, W, pattern, geom, mask_name=None):
 
 # ------------------------------------------------------------------------------------------------ (2) OverSamplerUniform
 
+def _map_mask(aa, m, mask, map_geom):
+    """the Mask2D object a per-pixel sub-size map (Array2D) is stored on: the sampler's own mask in step A; in steps B / C a mask with
+    the same bits but step A's origin / pixel scales (a map made for one geometry re-used for a shifted / re-scaled mask, as
+    Grid2D.subtracted_from or a map from Array2D.no_mask do) - the sampler must partition the pixels of the mask IT is given"""
+    if map_geom is None:
+        return m
+    _, (oy, ox), (sy, sx) = map_geom
+    return aa.Mask2D(mask=mask, pixel_scales=(sy, sx), origin=(oy, ox))
+
+
 def _sampler_sub_size(aa, m, mask, pattern):
     subs = sub_map(mask, pattern)
     if pattern.startswith("u"):
@@ -386,8 +396,9 @@ def _history_inputs(ctx, geom, inputs):
 def body_sampler(inp, H, W, pattern):
     fresh_process()
     A, E = {}, {}
-    for tag, (oy, ox), (sy, sx) in history(inp):
-        a, e = _sampler_step(inp, H, W, pattern, oy, ox, sy, sx)
+    hist = history(inp)
+    for tag, (oy, ox), (sy, sx) in hist:
+        a, e = _sampler_step(inp, H, W, pattern, oy, ox, sy, sx, map_geom=None if tag == "" else hist[0])
         for k in e:
             E[tag + k] = e[k]
             if k in a:
@@ -395,7 +406,7 @@ def body_sampler(inp, H, W, pattern):
     return A, E
 
 
-def _sampler_step(inp, H, W, pattern, oy, ox, sy, sx):
+def _sampler_step(inp, H, W, pattern, oy, ox, sy, sx, map_geom=None):
     import autoarray as aa
     mask = np.array(inp["mask"], dtype=bool).reshape(H, W)
     a0, a1, a2 = inp["affine"]
@@ -406,7 +417,7 @@ def _sampler_step(inp, H, W, pattern, oy, ox, sy, sx):
     F = UserF(inp["ftab"])
     m = aa.Mask2D(mask=mask, pixel_scales=(sy, sx), origin=(oy, ox))
     A, E = {}, {}
-    s = hx.attempt(lambda: aa.OverSamplerUniform(mask=m, sub_size=_sampler_sub_size(aa, m, mask, pattern)))
+    s = hx.attempt(lambda: aa.OverSamplerUniform(mask=m, sub_size=_sampler_sub_size(aa, _map_mask(aa, m, mask, map_geom), mask, pattern)))
     if isinstance(s, hx.Raised):
         return {"constructed": s}, {"constructed": "no exception"}
     pts, owner = [], []
@@ -489,8 +500,9 @@ def case_sampler(ctx, H, W, pattern, geom, mask_name=None):
 def body_decorator(inp, H, W, pattern, route):
     fresh_process()
     A, E = {}, {}
-    for tag, (oy, ox), (sy, sx) in history(inp):
-        a, e = _decorator_step(inp, H, W, pattern, route, oy, ox, sy, sx)
+    hist = history(inp)
+    for tag, (oy, ox), (sy, sx) in hist:
+        a, e = _decorator_step(inp, H, W, pattern, route, oy, ox, sy, sx, map_geom=None if tag == "" else hist[0])
         for k in e:
             E[tag + k] = e[k]
             if k in a:
@@ -498,7 +510,7 @@ def body_decorator(inp, H, W, pattern, route):
     return A, E
 
 
-def _decorator_step(inp, H, W, pattern, route, oy, ox, sy, sx):
+def _decorator_step(inp, H, W, pattern, route, oy, ox, sy, sx, map_geom=None):
     import autoarray as aa
     from autoarray.operators.over_sampling.grid_oversampled import Grid2DOverSampled
     mask = np.array(inp["mask"], dtype=bool).reshape(H, W)
@@ -507,7 +519,7 @@ def _decorator_step(inp, H, W, pattern, route, oy, ox, sy, sx):
     F = UserF(inp["ftab"])
     prof = make_profile(F)
     m = aa.Mask2D(mask=mask, pixel_scales=(sy, sx), origin=(oy, ox))
-    over = aa.OverSamplingUniform(sub_size=_sampler_sub_size(aa, m, mask, pattern))
+    over = aa.OverSamplingUniform(sub_size=_sampler_sub_size(aa, _map_mask(aa, m, mask, map_geom), mask, pattern))
     A, E = {}, {}
     if route == "from_mask":
         mk = lambda: aa.Grid2D.from_mask(mask=m, over_sampling=over)
